@@ -40,6 +40,7 @@ def analyse_copy(root):
         return None, log[-3000:]
     prog = facts.Program(out)
     prog.key = 'mutant'
+    prog.normalise(facts.anchor_names())
     prog.nfiles = 0
     return prog, None
 
@@ -51,7 +52,12 @@ def run_mutant(mod, pid, mutant_path, base_keys):
         root = os.path.join(tmp, 'repo')
         os.makedirs(root)
         copy_repo(root)
-        err = apply_edits(root, spec['edits'])
+        if spec.get('patch'):
+            pf = os.path.join(os.path.dirname(mutant_path), spec['patch'])
+            r = subprocess.run(['patch', '-p1', '-s', '-d', root, '-i', pf], capture_output=True, text=True)
+            err = None if r.returncode == 0 else 'patch does not apply: ' + (r.stdout + r.stderr)[-200:]
+        else:
+            err = apply_edits(root, spec['edits'])
         if err:
             return {'mutant': os.path.basename(mutant_path), 'status': 'skipped', 'why': err}
         prog, log = analyse_copy(root)
